@@ -28,7 +28,8 @@ FLOORS = {'npv_calls': 500, 'pmt_pv_calls': 1000, 'sln_calls': 100,
           'xnpv_calls': 300, 'irr_calls': 100, 'xirr_calls': 100,
           'linearity_relations': 100, 'inversion_relations': 200,
           'formula_calls': 50, 'layout_calls': 50, 'xnpv_timed_dates': 30,
-          'xnpv_zero_flows': 30, 'whole_number_finance_cases': 6}
+          'xnpv_zero_flows': 30, 'whole_number_finance_cases': 6,
+          'shifted_range_formulas': 100}
 ANCHOR_FUNCS = {'xlcalculator/xlfunctions/financial.py': [
     'NPV', 'PMT', 'PV', 'SLN', 'XNPV', 'IRR', 'XIRR', '_xnpv', '_xirr']}
 TIMEOUT = {'quick': 600, 'thorough': 3000}
@@ -398,10 +399,18 @@ def run(ctx):
     for kind, r, data, want, tol in formulas:
         cells = {}
         if kind in ('NPV-matrix', 'IRR-matrix'):
+            # the rectangle starts at column A or further right (E, F, G, M,
+            # O, U, W, AD): a range is read left to right wherever it sits
+            c0 = rng.choice([1, 1, 5, 6, 7, 13, 15, 21, 23, 30])
+            r0 = rng.choice([1, 1, 4])
+            if c0 > 1:
+                ctx.event('shifted_range_formulas')
             for i_, row in enumerate(data):
                 for j_, c in enumerate(row):
-                    cells[f'{ref.col_letters(j_ + 1)}{i_ + 1}'] = c
-            rg = f'A1:{ref.col_letters(len(data[0]))}{len(data)}'
+                    cells[f'{ref.col_letters(j_ + c0)}{i_ + r0}'] = c
+            rg = (f'{ref.col_letters(c0)}{r0}:'
+                  f'{ref.col_letters(c0 + len(data[0]) - 1)}'
+                  f'{r0 + len(data) - 1}')
             text = (f'=NPV({subject.lit(r) if r >= 0 else "-" + subject.lit(-r)},{rg})'
                     if kind == 'NPV-matrix' else f'=IRR({rg})')
         elif kind in ('NPV-range', 'IRR-range'):
@@ -412,15 +421,27 @@ def run(ctx):
                     if kind == 'NPV-range' else f'=IRR({rg})')
         else:
             vals, dts = data
-            for j, (c, d) in enumerate(zip(vals, dts)):
-                cells[f'A{j + 1}'] = c
-                cells[f'B{j + 1}'] = d
             n_ = len(vals)
+            if rng.random() < 0.5:
+                for j, (c, d) in enumerate(zip(vals, dts)):
+                    cells[f'A{j + 1}'] = c
+                    cells[f'B{j + 1}'] = d
+                rv, rd = f'A1:A{n_}', f'B1:B{n_}'
+            else:
+                # flows and dates as two ROWS that start right of column A
+                c0 = rng.choice([1, 5, 6, 7, 13, 15, 21, 23, 30])
+                ctx.event('shifted_range_formulas')
+                for j, (c, d) in enumerate(zip(vals, dts)):
+                    cells[f'{ref.col_letters(c0 + j)}1'] = c
+                    cells[f'{ref.col_letters(c0 + j)}2'] = d
+                last = ref.col_letters(c0 + n_ - 1)
+                rv = f'{ref.col_letters(c0)}1:{last}1'
+                rd = f'{ref.col_letters(c0)}2:{last}2'
             if kind == 'XNPV-range':
                 rt = subject.lit(r) if r >= 0 else '-' + subject.lit(-r)
-                text = f'=XNPV({rt},A1:A{n_},B1:B{n_})'
+                text = f'=XNPV({rt},{rv},{rd})'
             else:
-                text = f'=XIRR(A1:A{n_},B1:B{n_})'
+                text = f'=XIRR({rv},{rd})'
         got = subject.eval_one(text, cells)
         ctx.event('formula_calls')
         zero_x = kind == 'XIRR-range' and any(c == 0 for c in data[0])
